@@ -697,6 +697,34 @@ def table_conformance(ctx, drv, n_per_row):
 
 # ------------------------------------------------------------------------------------------------ run
 
+def directed_calls():
+    """Deterministic calls in which the elementary operation is applied to a RESTRUCTURED input (a split flattened axis, a
+    dropped unit axis, a diagonal, a transposition): the tensor handed to the backend function is then a reshape/transpose
+    view of the caller's array, so an in-place backend call on an "intermediate" value would write through to the argument."""
+    out = []
+    forms = [("a ([b] c)", [(3, 8)], {"c": 2}), ("(a [b])", [(6,)], {"a": 2}), ("a 1 [b]", [(3, 1, 4)], {}), ("([b] a) c", [(6, 2)], {"a": 2}),
+             ("a [b] c -> c [b] a", [(2, 3, 4)], {}), ("(a [b]) 1 c", [(6, 1, 2)], {"a": 3})]
+    for op in ("sort", "argsort", "flip", "softmax", "log_softmax", "roll"):
+        for desc, shapes, kw in forms:
+            k = dict(kw)
+            if op == "roll":
+                k["shift"] = 1
+            out.append({"op": op, "family": "preserve_shape", "desc": desc, "shapes": shapes, "kwargs": k, "note": ["directed", "restructured-input"]})
+    for op in ("sum", "max", "var", "any", "count_nonzero", "logsumexp"):
+        for desc, shapes, kw in forms[:4]:
+            out.append({"op": op, "family": "reduce", "desc": desc, "shapes": shapes, "kwargs": dict(kw), "note": ["directed", "restructured-input"]})
+    for op in ("argmax", "argmin"):
+        out.append({"op": op, "family": "argfind", "desc": "a ([b] c) -> [1] a c", "shapes": [(3, 8)], "kwargs": {"c": 2}, "note": ["directed", "restructured-input"]})
+        out.append({"op": op, "family": "argfind", "desc": "(a [b]) 1 -> a [1]", "shapes": [(6, 1)], "kwargs": {"a": 2}, "note": ["directed", "restructured-input"]})
+    for desc, shapes, kw in [("(a b) c -> c b a", [(6, 2)], {"a": 2}), ("a 1 b -> b a", [(2, 1, 3)], {}), ("a a b -> b a", [(3, 3, 2)], {}),
+                             ("a b a c -> c b a", [(2, 3, 2, 4)], {}), ("(a + b) c -> c a, c b", [(5, 2)], {"a": 2})]:
+        out.append({"op": "id", "family": "id", "desc": desc, "shapes": shapes, "kwargs": dict(kw), "note": ["directed", "restructured-input"]})
+    for op in ("add", "maximum", "logical_and"):
+        out.append({"op": op, "family": "elementwise", "desc": "(a b), b 1 -> a b", "shapes": [(6,), (3, 1)], "kwargs": {"a": 2}, "note": ["directed", "restructured-input"]})
+        out.append({"op": op, "family": "elementwise", "desc": "a b, b a, a -> b a", "shapes": [(2, 3), (3, 2), (2,)], "kwargs": {}, "note": ["directed", "restructured-input"]})
+    return out
+
+
 def run(ctx):
     rng = ctx.rng
     facts = ctx.facts.get("Alias", {})
@@ -745,15 +773,20 @@ def run(ctx):
             flagged_jobs.append(job)
         return outcome
 
-    # -- the shared call stream (all families)
-    for i in range(n_calls):
-        call = gen.gen_call(rng) if rng.random() < 0.92 else gen_ellipsis_sizes(rng)
-        backend = rng.choice(BACKENDS)
+    # -- the shared call stream (all families), preceded by the directed restructured-input calls on two backends
+    directed = [(c, b) for c in directed_calls() for b in (None, "numpy.numpylike")]
+    for i in range(-len(directed), n_calls):
+        if i < 0:
+            call, backend = directed[i + len(directed)]
+            ctx.count("directed-calls")
+        else:
+            call = gen.gen_call(rng) if rng.random() < 0.92 else gen_ellipsis_sizes(rng)
+            backend = rng.choice(BACKENDS)
         job = job_from_call(call, rng, backend)
         outcome = handle(job, (lambda f, call=call: shrink_generated(ctx, call, f, rng)) if call.get("note") != ["ellipsis-sizes"] else None)
         ctx.case(job_sig(job, "-", "-", "-"), nontrivial=outcome[0] == "ok" and any(np.size(a) > 1 for a in job["args"]))
         ctx.count("family:" + call["family"] + (":ellipsis-sizes" if call.get("note") == ["ellipsis-sizes"] else ""))
-        if i < 3:
+        if 0 <= i < 3:
             ctx.sample({"function": "einx." + job["fn"], "description": job["desc"], "shapes": [list(np.shape(a)) for a in job["args"]],
                         "kwargs": {k: repr(v) for k, v in job["kwargs"].items()}, "backend": job["backend"], "outcome": outcome[0]})
         if found >= 4:
